@@ -147,6 +147,28 @@ struct NewType(u64);
 #[derive(Serialize)]
 struct TupleStruct(i8, String, Option<()>);
 
+/// user types that merely share their name with one of reval's value kinds
+mod lookalikes {
+    use serde::Serialize;
+    #[derive(Serialize)]
+    pub struct Duration(pub i64);
+    #[derive(Serialize)]
+    pub struct Decimal(pub String);
+    #[derive(Serialize)]
+    pub struct DateTime(pub String);
+    #[derive(Serialize)]
+    pub struct Value(pub u8);
+    #[derive(Serialize)]
+    pub struct Int {
+        pub value: f32,
+    }
+    #[derive(Serialize)]
+    pub enum Option {
+        None,
+        Some(u8),
+    }
+}
+
 #[derive(Serialize)]
 struct Generic<T> {
     value: T,
@@ -212,6 +234,14 @@ pub fn cases() -> Vec<TypeCase> {
         case("unit struct", &UnitStruct),
         case("newtype struct", &NewType(u64::MAX)),
         case("tuple struct", &TupleStruct(i8::MIN, "s".into(), Some(()))),
+        case("user newtype named Duration", &lookalikes::Duration(1500)),
+        case("user newtype named Decimal", &lookalikes::Decimal("007".into())),
+        case("user newtype named Decimal (not a number)", &lookalikes::Decimal("x".into())),
+        case("user newtype named DateTime", &lookalikes::DateTime("2015-07-30T03:26:13Z".into())),
+        case("user newtype named Value", &lookalikes::Value(1)),
+        case("user struct named Int", &lookalikes::Int { value: 0.5 }),
+        case("user enum named Option: None", &lookalikes::Option::None),
+        case("user enum named Option: Some", &lookalikes::Option::Some(3)),
         case("generic of option", &Generic { value: Some(1u8), list: vec![None, Some(2)] }),
         case("generic of tuple", &Generic { value: (1i32, "a", 2.5f32), list: vec![] }),
         case("serialize_bytes field", &WithBytes { raw: &[0, 128, 255] }),
